@@ -283,6 +283,11 @@ int main() {
             } else if (op.compare(0, 4, "gfq.") == 0) {
                 std::string w = a[0]; a.erase(a.begin());
                 out = (w == "32") ? GfqIO<int32_t>::go(op, a) : GfqIO<int64_t>::go(op, a);
+            } else if (op == "indet.rt") {        // name tail: operator<<(Indeter) then operator>>(Indeter)
+                Indeter X(unhex(a[0])), Y("none"); std::ostringstream o; o << X;
+                std::istringstream is(o.str() + unhex(a[1])); is >> Y;
+                std::ostringstream o2; o2 << Y;
+                out = hex(o.str()) + " " + (X.compare(Y) == 0 ? "1" : "0") + " " + hex(o2.str()) + " " + after(is);
             } else if (op == "numget") {
                 std::string w = a[0]; a.erase(a.begin());
                 out = (w == "32") ? numget<int32_t>(a) : numget<int64_t>(a);
